@@ -467,6 +467,8 @@ def histories(seed, budget, prop='C14'):
             yield ('batch', grids[0], 2, 3, 'rec', procs, None)
             yield ('batch', grids[3], 1, 2, ['rec', 'rec2'], procs, None)
             yield ('batch', grids[0], 1, 3, 'rec', procs, 'first')
+            yield ('batch', grids[0], 2, 0, 'rec', procs, None)          # every execution returns an empty record list
+            yield ('batch', {'a': [1, 2], 'stop': [0, 2]}, 1, 3, 'rec', procs, None)
             yield ('batch', grids[0], 1, 3, 'rec', procs, 'last-stop')
             yield ('batch', grids[0], 1, 3, 'rec', procs, 'first-lib-agent')
             yield ('batch', grids[1], 1, 3, 'rec', procs, 'last-lib-complete')
